@@ -27,6 +27,9 @@ import (
 const (
 	// Maximum number of symlinks in a path.
 	slCountMax = 64
+
+	// Maximum size of a file (1 TiB), larger sizes and offsets are rejected as invalid arguments.
+	maxFileSize = 1 << 40
 )
 
 // MemIOFS implements a memory file system using the avfs.IOFS interface.
